@@ -299,6 +299,11 @@ def close(x):
 
 def cond_at(atom, pol, t):
     """truth of one path literal at t (None if it does not concern the carry)"""
+    if isinstance(atom, tuple) and atom[:2] in (("sym", "and"), ("sym", "or")):
+        # a compound test (`1 <= m && m <= 12`, a range pattern): decided from its parts at this t
+        parts = [cond_at(a_, p_, t) for a_, p_ in (paths.norm_cond(("if", d_)) for d_ in atom[2:])]
+        val = all(parts) if atom[1] == "and" else any(parts)
+        return val if pol else not val
     if not (isinstance(atom, tuple) and atom[:2] == ("sym", "cmp")):
         raise NotRecognised("condition " + repr(atom)[:100])
     rel = atom[2]
